@@ -196,8 +196,9 @@ pub fn build(quick: bool) -> PropRun {
         let env = LwEnv { fates: FATES_NONE, deltas: &[20], dev_rounds: 0, dev_start: 0, max_rounds: 40_000, skip_choice: false, flush_choice: false, blackouts: &[], stop_when_idle: true, fair_delta: 20, slow_after: usize::MAX, slow_delta: 250, fuel: 50_000_000, shifts: &[] };
         scs.push(lw_scenario(LwSpec { tag: "C04.max-packet".into(), cfg, script: si, env, d: 0, oracles, probe_round: 0 }));
     }
+    for mp in if quick { vec![4444usize] } else { vec![1, 1448, 4444, 100_000] } { scs.push(crate::props_ew::c04_api_scenario(mp)); }
     PropRun { level: "model_checking", scenarios: scs, units: receiver_units(quick), replay_case: Some(replay_case), summary: Summary {
-        rule: "(a) deviation-bounded link-world exploration with one packet of every boundary size (fragment multiples +-1), three flush budgets, frame fates; wire fragments and delivered bytes compared with the submitted payload, no frame above 1472 bytes; (b) a lone real receiver fed with all arrival orders x duplication patterns x interleavings with a neighbour packet, and with every disagreeing fragment at every position after the first genuine one".into(),
+        rule: "(a) deviation-bounded link-world exploration with one packet of every boundary size (fragment multiples +-1), three flush budgets, frame fates; wire fragments and delivered bytes compared with the submitted payload, no frame above 1472 bytes; (b) a lone real receiver fed with all arrival orders x duplication patterns x interleavings with a neighbour packet, and with every disagreeing fragment at every position after the first genuine one; (c) at the public API: packets of 0, 1, the fragment boundaries, max_packet_size - 1 and exactly max_packet_size bytes through Client::send and RemoteClient::send in both directions, Reliable and Unreliable, loss-free: each once, byte-identical, in order, no datagram above 1472 bytes".into(),
         bounds: json!({"sizes": format!("0,1,63,64,255,256, k*1448-1..k*1448+1 for k=1..{}, 100000{}", kmax, if quick { "" } else { ", MAX_PACKET_SIZE" }), "budgets_Bps": [2_000_000, 20_000, 3000], "receiver_fragments": if quick { "2..4" } else { "2..6" }, "receiver_items_max": if quick { 7 } else { 8 }}),
         assumptions: vec!["payload bytes come from a fixed generator; the neighbour packet is Unreliable on the same channel, so the older packet may legitimately be skipped once the newer one was delivered".into(), "build profile: release with debug-assertions and overflow-checks on".into()],
         witness_names: WITNESSES.to_vec(), extra: json!({}), exhaustive: true } }
